@@ -594,6 +594,16 @@ class ServerTls(Server):
         self.serviceCxes()
 
 
+    def close(self):
+        """
+        Close all sockets including those of connections still handshaking
+        """
+        super(ServerTls, self).close()  # listen socket and .ixes
+        for cx in self.cxes.values():  # pending handshakes
+            cx.close()
+        self.cxes.clear()
+
+
 class Remoter(tyming.Tymee):
     """
     Class to service an incoming nonblocking TCP connection from a remote client.
